@@ -3,8 +3,10 @@ use serde_json::Value;
 pub mod c01;
 pub mod captured;
 pub mod adapters;
+pub mod closematch;
 pub mod deadline;
 pub mod hookproto;
+pub mod inline;
 pub mod misc;
 pub mod text;
 pub mod udiff;
